@@ -203,10 +203,21 @@ def simple_instants(cond, opts):
             t += rep
         return out
     if cond['t'] == 'clock':
-        t = (int(cond['thr']) - int(opts.get('start_clocktime', 0))) % 86400
+        start = int(opts.get('start_clocktime', 0))
+        thr = int(cond['thr'])
+        fd = int(cond.get('first_day', 0))
+        if cond.get('once'):
+            # once, on clock day first_day (days counted from 12 AM of the day the simulation starts); a threshold that is
+            # earlier in the day than the start of the simulation means the next day (documented in the constructor)
+            if thr < start and fd < 1:
+                fd = 1
+            t = thr + fd * 86400 - start
+            return [t] if 0 <= t <= dur else []
+        t = (thr - start) % 86400
         out = []
         while t <= dur:
-            out.append(t)
+            if (t + start) // 86400 >= fd:
+                out.append(t)
             t += 86400
         return out
     raise ValueError('not a simple time condition: %r' % (cond,))
